@@ -274,7 +274,7 @@ func mutateForLogic(r *Rng, eml []byte) []byte {
 }
 
 func emlLogicCase(c *Ctx, input []byte, kind string) {
-	m, err, pan, to := parseGuarded(func() (*mail.Msg, error) { return mail.EMLToMsgFromString(string(input)) })
+	m, err, pan, to := parseGuarded(func() (*mail.Msg, error) { return parseEMLAny(len(input), input) })
 	if pan != nil || to {
 		// C09's business; nothing to compare
 		c.rep.Branches["skipped: panic or timeout (reported by C09)"]++
